@@ -10,6 +10,18 @@ EDDSA_CORE = ["bn254/twistededwards", "bls12-381/twistededwards", "bls12-381/ban
 EDDSA_REST = [c for c in EDDSA_ALL if c not in EDDSA_CORE]
 
 
+def _cold_classes():
+    """Class labels of TestC12_ColdStart: one per (package, entry point), see harness/c12/coldstart_test.go."""
+    out = ["coldstart"]
+    common = ["PublicKey.SetBytes", "PrivateKey.SetBytes", "Signature.SetBytes", "Verify", "Verify(corrupted)", "GenerateKey", "Sign+Verify"]
+    for c in CURVES:
+        es = common + ["HashToInt"] + (["RecoverFrom", "SignForRecover+RecoverFrom"] if c in RECOVER else [])
+        out += ["coldstart:ecdsa/%s:%s" % (c, e) for e in es]
+    for c in EDDSA_ALL:
+        out += ["coldstart:eddsa/%s:%s" % (c, e) for e in common]
+    return out
+
+
 def _sh(prefix, names):
     return [dict(name=n.replace("/", "_"), inst="^%s/%s$" % (prefix, n.replace(".", r"\."))) for n in names]
 
@@ -42,6 +54,10 @@ PROP = dict(
         "to hand in a clean object, so a shared hash.Hash object may be dirty (caller Write/Sum, a previous Verify, a failed MiMC Write) when it is "
         "passed in; every signature made on the shared object must verify with a fresh object and satisfy the reference equation, every Verify "
         "verdict on the shared object must equal the fresh-object verdict and the reference verdict",
+        "cold-start clause: one fresh child process per (package, entry); the child's first library call is the entry (public keys for Verify are "
+        "assembled from coordinates through the field setters, inputs are bytes made beforehand by the parent and cross-checked against the reference "
+        "equation); cold answer = answer after warming the package through all other paths = expectation built from the stored bytes; signatures of a "
+        "cold ECDSA signer are decided by the reference equation; package init() functions of all imported library packages have run (Go semantics)",
         "aliasing clause: SHA-256 only; after every scribble step the source key must serialise identically, and at the end sign for its original "
         "public key (library Verify and reference equation) and agree with a copy reloaded from the saved bytes",
         "public-key recovery exists only in the secp256k1, bn254 and stark-curve packages",
@@ -67,6 +83,8 @@ PROP = dict(
         dict(name="history_eddsa", pkg="c12", run="^TestC12_History_EdDSA$", shards=_sh("eddsa", EDDSA_ALL), checks=(20, 300)),
         dict(name="alias_ecdsa", pkg="c12", run="^TestC12_Alias_ECDSA$", checks=(25, 400)),
         dict(name="alias_eddsa", pkg="c12", run="^TestC12_Alias_EdDSA$", checks=(25, 400)),
+        # every entry point as the FIRST use of its package in a fresh process (one child process per entry)
+        dict(name="coldstart", pkg="c12", run="^TestC12_ColdStart$", rapid=False, weight=4),
         dict(name="regress", pkg="c12", run="^TestC12_(Regress.*|Probe.*|Anchor.*|Dispatch)$", rapid=False),
     ],
     mandatory_all=[
@@ -82,6 +100,7 @@ PROP = dict(
         "sig_bitflip_R", "sig_bitflip_S", "S_zero", "S_eq_l", "S_l_plus_1", "S_plus_l", "R_offcurve", "R_noncanonical_y",
         "R_small_order", "R_plus_torsion_resigned", "R_signbit_x0", "pk_noncanonical_y", "pk_small_order", "pk_plus_torsion",
         "leading_zero_bit",
+        # (cold-start classes are appended below)
         # one hash object shared by a sequence of calls
         "history:shared_hash_object", "history:verify_then_sign", "history:dirty_hash_before_sign", "hstep:sign_for_recover",
         "hstep:caller_write", "hstep:verify_inadmissible",
@@ -90,6 +109,8 @@ PROP = dict(
         "alias:public_of_private", "alias:public_of_private_invalid", "alias:bytes_slice", "alias:setbytes_input", "alias:public_of_loaded",
     ],
 )
+
+PROP["mandatory_all"] += _cold_classes()
 
 PROP.update(
     technique=("property-based testing (rapid): accept-iff-equation differential between the library verifiers and independent math/big "
